@@ -579,6 +579,21 @@ func (vc *VC) havocLoop(li *loopInfo, h *Heap) {
 					allocs = true
 					continue
 				}
+				if n := calleeName(cc); strings.HasPrefix(n, "sort.Slice") || n == "sort.Strings" || n == "sort.Ints" {
+					var st types.Type
+					if mi, ok := cc.Args[0].(*ssa.MakeInterface); ok {
+						st = mi.X.Type()
+					} else {
+						st = cc.Args[0].Type()
+					}
+					if id, ok := vc.backingType(st); ok {
+						allocs = true
+						for i, l := range vc.L.Leaves(sliceElem(st)) {
+							targets = append(targets, target{sort: l.Sort, coarse: true, dyn: id, slotOff: i})
+						}
+						continue
+					}
+				}
 				if isLockOp(calleeName(cc)) != "" {
 					// mutex state lives at the mutex address: typed by the struct that holds it
 					if a, ok := addrOf(cc.Args[0]); ok {
@@ -811,6 +826,7 @@ func (vc *VC) frameObligation(r retRec, pos string) error {
 		n      int
 		allIdx bool
 		allObj bool
+		anyDyn int
 	}
 	var locs []loc
 	for _, m := range vc.ct.Modifies {
@@ -822,7 +838,7 @@ func (vc *VC) frameObligation(r retRec, pos string) error {
 			if x.ghost != "" || x.allMaps || x.isMap {
 				continue
 			}
-			locs = append(locs, loc{x.a, x.n, x.allIdx, x.allObj})
+			locs = append(locs, loc{x.a, x.n, x.allIdx, x.allObj, x.anyDyn})
 		}
 	}
 	for s := Sort(0); s < nSorts; s++ {
@@ -833,6 +849,10 @@ func (vc *VC) frameObligation(r retRec, pos string) error {
 		decls := []string{"(declare-const " + o + " Int)", "(declare-const " + sl + " Int)", "(declare-const " + ix + " Int)"}
 		var excl []string
 		for _, l := range locs {
+			if l.anyDyn != 0 {
+				excl = append(excl, and("(= (dyntype "+o+") "+num(int64(l.anyDyn))+")", "(<= "+l.a.Slot+" "+sl+")", "(< "+sl+" "+plus(l.a.Slot, num(int64(l.n)))+")"))
+				continue
+			}
 			c := []string{eq(o, l.a.Obj)}
 			if !l.allObj {
 				c = append(c, "(<= "+l.a.Slot+" "+sl+")", "(< "+sl+" "+plus(l.a.Slot, num(int64(l.n)))+")")
